@@ -20,6 +20,7 @@ RULE = (
     "points from min to max score) / array, for metrics by name and callable. W1 curves: random, lattice (plateaus at t, touching peaks/valleys), "
     "duplicate x with equal y, rounded, valleys/peaks within a few ulp of t; targets inside/outside the range, at knots. Non-trivial: the "
     "curve crosses some target; distinct = hash of inputs."
+    ' Build-phase additions: integer curves of the order 1e10 with integer targets, amplitudes 1e-250..1e150, numpy-integer points.'
 )
 ASSUMPTIONS = ["x non-decreasing, duplicate x only with equal y, finite y", "Scores with >= 2 distinct scores for threshold_at_metric"]
 
